@@ -102,6 +102,7 @@ def run(rep):
         rep.violations.append({"rule": rule, "key": key, "where": "include/boost/gil/image.hpp " + v["where"], "detail": {"problem": v["detail"], "example_path": v["path"][-600:], "paths": v["count"], "configurations": sorted(v["configs"])}})
     rollback_rules(rep)
     view_established(rep, per_std[0][1])
+    recreate_commit_order(rep, per_std[0][1])
     raw_construction(rep, wd, src)
     rep.floor("members", 100 * len(stds))
     rep.floor("config:interleaved/sticky", 20)
@@ -250,6 +251,68 @@ def rollback_rules(rep):
         else:
             rep.violation("I7-rollback", key, where, {"problem": prob + ": after a throwing construction some constructed elements are not destroyed and some unconstructed ones are"})
     rep.floor("obligations:I7", 6)
+
+
+def recreate_commit_order(rep, fns):
+    """I10: the reallocating branch of recreate builds a temporary image and adopts it. The construction can throw (allocation, element constructors); the strong
+    guarantee the other members give requires that nothing of *this was changed on the way there -- or that it is put back before the construction."""
+    from .ast import rules as R
+    rep.rule("I10 image::recreate (the four overloads with a body): on the path to the construction of the temporary image every data member of *this that was assigned "
+             "before holds its entry value again (the last assignment before the construction restores a local that saved the member), so that a throwing construction leaves "
+             "the image unchanged -- with the new alignment left behind, the same call repeated sees `same dimensions, same alignment` and returns without doing anything")
+    seen = set()
+    for f in fns:
+        if f["name"] != "boost::gil::image::recreate" or f.get("body") is None:
+            continue
+        tmps = [(x, p) for x, p in R.find(f["body"], lambda x: x.get("k") == "Decl" and any(re.match(r"(boost::gil::)?image\b", (dd.get("type") or "")) for dd in x.get("decls", [])))]
+        if not tmps:
+            continue          # the forwarding overloads
+        key = "I10:image::recreate(%s)" % ", ".join(pp.get("name") or "?" for pp in f["params"])
+        if key in seen:
+            continue
+        seen.add(key)
+        rep.count("obligations:I10")
+        saved = {}
+        for dn, _ in R.find(f["body"], lambda x: x.get("k") == "Decl"):
+            for dd in dn.get("decls", []):
+                ini = R.strip(dd.get("init"))
+                while isinstance(ini, dict) and ini.get("k") in ("ImplicitCast", "Paren"):
+                    ini = R.strip(ini.get("e"))
+                if dd.get("id") and isinstance(ini, dict) and ini.get("k") == "Member" and R.key(ini).replace("this.", "").startswith("_"):
+                    saved[dd["id"]] = R.key(ini).replace("this.", "")
+        bad = []
+        for t, tp in tmps:
+            tline = t.get("line") or 0
+            anc = [id(a) for a, _, _ in tp]
+            last = {}
+            for x, xp in R.find(f["body"], lambda x: x.get("k") == "Assign" and x.get("op") == "="):
+                lhs = R.key(x["l"]).replace("this.", "")
+                if not re.fullmatch(r"_\w+", lhs) or (x.get("line") or 0) >= tline:
+                    continue
+                # on the path: every conditional / loop ancestor of the assignment is an ancestor of the temporary as well, in the same branch
+                onpath = True
+                for a, fld, _ in xp:
+                    if a.get("k") in ("If", "For", "While", "Do", "Switch") and id(a) not in anc:
+                        onpath = False
+                    if a.get("k") == "If" and id(a) in anc:
+                        fld_t = [ff for aa, ff, _ in tp if aa is a]
+                        if fld_t and fld_t[0] != fld:
+                            onpath = False
+                if onpath:
+                    rhs = R.strip(x["r"])
+                    while isinstance(rhs, dict) and rhs.get("k") in ("ImplicitCast", "Paren"):
+                        rhs = R.strip(rhs.get("e"))
+                    restored = isinstance(rhs, dict) and rhs.get("k") == "DeclRef" and saved.get(rhs.get("id")) == lhs
+                    last[lhs] = (restored, R.key(x), x.get("line"))
+            for m, (restored, k, ln) in sorted(last.items()):
+                if not restored:
+                    bad.append({"member": m, "last assignment before the construction": k, "line": ln})
+        if bad:
+            rep.violation("I10-recreate-commit", key, R.fn_where(f), {"changed before the throwing construction": bad,
+                          "example": "image(3,3) with an allocator whose next allocate() throws: recreate(3,3,16) throws and leaves _align_in_bytes == 16; the retry recreate(3,3,16) returns at once, rows are still unaligned"})
+        else:
+            rep.ok("I10-recreate-commit", key, "no member differs from its entry value when the temporary image is constructed")
+    rep.floor("obligations:I10", 4)
 
 
 def view_established(rep, fns):
